@@ -74,6 +74,15 @@ class Report:
         self.bounds = {}
         self.extra = {}
         self._findings = {f["id"]: f for f in open_findings(pid)}
+        # replay files of earlier runs of this property are stale
+        d = os.path.join(REPLAYS, pid)
+        if os.path.isdir(d):
+            for n in os.listdir(d):
+                if n.endswith(".json"):
+                    try:
+                        os.remove(os.path.join(d, n))
+                    except OSError:
+                        pass
 
     # ---- model checking part
     def add_mc(self, name, res, invariants=()):
